@@ -1,6 +1,7 @@
 SPECIFICATION Spec
 CONSTANTS
   H = {1, 2, 3}
+  Val <- Val3
   Kind = "seq"
   Sorted = TRUE
   Obs <- ObsEmit
